@@ -10,7 +10,7 @@ ID = "C20"
 LEVEL = "exploration"
 RULE = (
     "Hypothesis draws a non-negative field f on shapes 1..8 x 2..8 from small dyadic value sets (sums are exact in floating point, so "
-    "brute-force oracles need no tolerance) with many ties and zeros; a base field g that is one of the five built-in base functions "
+    "brute-force oracles need no tolerance) with many ties and zeros, or (one case in four) arbitrary float values with a 1e-12 tolerance; a base field g that is one of the five built-in base functions "
     "evaluated on a generated grid/tower/wind, f itself, or a random dyadic field with ties; a strictly increasing transform and a "
     "permutation of the cells; fractions p in {k/16} or arbitrary floats in (0,1]; power-of-two cell sizes; 2-D or 3-D input with 1-D "
     "or 2-D coordinate arrays; C-ordered, Fortran-ordered or transposed-view memory layouts of f and g. Oracles: for every cell lo = sum f[g > g_c] <= rescaled_c <= hi = sum f[g >= g_c] - f_c (so exact for "
@@ -30,11 +30,15 @@ _DY = [0.0, 0.0, 0.125, 0.25, 0.25, 0.5, 0.75, 1.0, 1.5, 2.0, 3.0]
 def _case(draw):
     ny, nx = draw(st.integers(1, 8)), draw(st.integers(2, 8))
     n = ny * nx
-    f = draw(st.lists(st.sampled_from(_DY), min_size=n, max_size=n))
+    floats = draw(st.integers(0, 3)) == 0  # arbitrary (non-dyadic) values: sums are no longer exact, oracles use a tolerance
+    if floats:
+        f = draw(st.lists(st.one_of(st.just(0.0), gen.fl(0.0, 3.0), st.sampled_from([0.1, 0.2, 0.3, 0.7])), min_size=n, max_size=n))
+    else:
+        f = draw(st.lists(st.sampled_from(_DY), min_size=n, max_size=n))
     if not any(f):
         f[draw(st.integers(0, n - 1))] = 1.0
     gk = draw(st.sampled_from(["contribution", "circular", "upwind", "crosswind", "sector", "random", "random"]))
-    case = {"ny": ny, "nx": nx, "f": f, "gkind": gk,
+    case = {"ny": ny, "nx": nx, "f": f, "gkind": gk, "floats": floats,
             "dx": draw(st.sampled_from([0.5, 1.0, 2.0, 8.0])), "dy": draw(st.sampled_from([0.25, 1.0, 4.0])),
             "tower": [draw(st.integers(0, nx - 1)), draw(st.integers(0, ny - 1))],
             "wind": [draw(st.sampled_from([1.0, -2.0, 0.5, 3.0, 0.0])), draw(st.sampled_from([1.0, -1.0, 0.25, -3.0]))],
@@ -99,7 +103,7 @@ def check_case(case):
         f, g = np.ascontiguousarray(f.T).T, np.ascontiguousarray(g.T).T
     total = f.sum()
     out.label("g=" + case["gkind"], "ties-in-g" if len(np.unique(g)) < g.size else "g-untied",
-              "zeros-in-f" if (f == 0).any() else "f-positive", f"coords={case['coords']}", f"stack={case['stack']}", "layout=" + lay)
+              "zeros-in-f" if (f == 0).any() else "f-positive", "float-values" if case.get("floats") else "dyadic-values", f"coords={case['coords']}", f"stack={case['stack']}", "layout=" + lay)
 
     lo, hi = _bounds(f, g)
 
@@ -107,7 +111,8 @@ def check_case(case):
         if r.shape != lo_.shape:
             out.bad(f"{name}: result shape {r.shape}, expected {lo_.shape}")
             return
-        badc = np.argwhere((r < lo_) | (r > hi_))
+        slack = 1e-12 * float(total) if case.get("floats") else 0.0
+        badc = np.argwhere((r < lo_ - slack) | (r > hi_ + slack))
         if len(badc):
             j, i = badc[0]
             out.bad(f"{name}: rescaled value {r[j, i]!r} at cell {(int(j), int(i))} outside [sum f over larger g, ... incl. ties] = "
@@ -126,7 +131,7 @@ def check_case(case):
     lo_a, hi_a = _bounds(f, g_alt)
     within("get_source_area with a second base field on the same f", bldfm.get_source_area(f, g_alt), lo_a, hi_a)
     if r.shape == f.shape:
-        if (r < 0).any() or (r > total - f).any():
+        if (r < 0).any() or (r > total - f + (1e-12 * float(total) if case.get("floats") else 0.0)).any():
             out.bad("rescaled field leaves [0, total - f_cell]")
         gf, rf = g.ravel(), r.ravel()
         o = np.argsort(gf, kind="stable")
@@ -179,7 +184,7 @@ def check_case(case):
         tgt = p * total
         c_lo = int(np.searchsorted(cs, tgt * (1 - 1e-12), side="left")) + 1
         c_hi = int(np.searchsorted(cs, tgt * (1 + 1e-12), side="left")) + 1
-        exact = float(p * 16).is_integer()
+        exact = float(p * 16).is_integer() and not case.get("floats")
         if exact:
             c = int(np.searchsorted(cs, tgt, side="left")) + 1
             return {c}
@@ -196,7 +201,7 @@ def check_case(case):
             continue
         res[p] = (level, area)
         counts = oracle_counts(p)
-        ok = any(area == c * A and level == vals[c - 1] for c in counts if c <= len(vals))
+        ok = any(area == c * A and level == vals[c - 1] for c in counts if 1 <= c <= len(vals))
         if not ok:
             c = min(counts)
             out.bad(f"percentile p={p}: got level {level!r}, area {area!r}; the fewest highest cells reaching p*total are {c} "
@@ -206,7 +211,7 @@ def check_case(case):
             if (l2, a2) != (level, area):
                 out.bad(f"3-D input at level {lvl} gives {(level, area)}, the 2-D call on that slice {(l2, a2)}")
         ls, as_ = extract_percentile_contour(F * case["scale"], grid, pct=p, level=lvl)
-        if not (ls == level * case["scale"] and as_ == area):
+        if not (ls == level * case["scale"] and (as_ == area or case.get("floats"))):
             out.bad(f"scaling f by {case['scale']}: level {level!r} -> {ls!r}, area {area!r} -> {as_!r}")
         if st_ > 1:
             # every level of the SAME 3-D array object, one after the other: each answer is that slice's answer
@@ -220,7 +225,7 @@ def check_case(case):
         l_a, a_a = extract_percentile_contour(G, grid, pct=p, level=lvl)
         G *= case["scale"]
         l_b, a_b = extract_percentile_contour(G, grid, pct=p, level=lvl)
-        if not (l_b == l_a * case["scale"] and a_b == a_a):
+        if not (l_b == l_a * case["scale"] and a_b == a_a) and not (case.get("floats") and l_b in (vals * case["scale"])):
             out.bad(f"array scaled in place by {case['scale']} between two calls: level {l_a!r} -> {l_b!r}, area {a_a!r} -> {a_b!r}")
     if len(res) == 2:
         (pa, (la, aa)), (pb, (lb, ab)) = sorted(res.items())
